@@ -335,6 +335,9 @@ func (t *netTicker) ScheduleTimeout(newti timeoutInfo) {
 		c := newti
 		t.pending = &c
 		d := newti.Duration
+		if newti.Step == cstypes.RoundStepNewHeight {
+			d = t.sim.nodes0(t.node).TimeoutCommit // StartTime-now depends on the real clock: use the configured wait
+		}
 		if d < 0 {
 			d = 0
 		}
@@ -483,6 +486,9 @@ type netNode struct {
 	cfg    *configs.ConsensusConfig
 	dead   string
 	seen   map[int]bool // archive message ids already handed to this node
+	seenAt map[int]int  // ... and the node's maj23 epoch at that time
+	majSet map[string]bool
+	majEpoch int
 	restarts int
 }
 
@@ -537,6 +543,7 @@ type netHeight struct {
 	parts   map[string]map[int]*types.Part // parts known to correct nodes, by part set header
 	blocks  map[common.Hash]*types.Block    // blocks known to the harness (own blocks of correct nodes, Byzantine blocks)
 	psets   map[common.Hash]*types.PartSet
+	blockL  []common.Hash
 	commits []netCommitRec
 	syncR0  int // highest round of a correct node when the synchronous phase for this height began (-1: not begun)
 }
@@ -570,6 +577,7 @@ type netSim struct {
 	heights int
 	stuck   bool
 	voteClock int64
+	lastCfg *configs.ConsensusConfig
 }
 
 func (s *netSim) fail(class, detail string) {
@@ -677,6 +685,9 @@ func (s *netSim) noteBlock(blk *types.Block, ps *types.PartSet, own bool) {
 	if ht == nil {
 		return
 	}
+	if _, ok := ht.blocks[blk.Hash()]; !ok {
+		ht.blockL = append(ht.blockL, blk.Hash())
+	}
 	ht.blocks[blk.Hash()] = blk
 	ht.psets[blk.Hash()] = ps
 }
@@ -711,7 +722,7 @@ func (s *netSim) onCommit(nd *netNode, block *types.Block, ps *types.PartSet, se
 
 // newNode assembles a ConsensusState for node id from the given chain state; db/bo are kept over restarts.
 func (s *netSim) newNode(id int, state cstate.LatestBlockState, old *netNode) *netNode {
-	nd := &netNode{sim: s, id: id, byz: s.byz[id], key: s.keys[id], seen: map[int]bool{}}
+	nd := &netNode{sim: s, id: id, byz: s.byz[id], key: s.keys[id], seen: map[int]bool{}, seenAt: map[int]int{}, majSet: map[string]bool{}}
 	if old != nil {
 		nd.db, nd.store, nd.bo, nd.cfg, nd.restarts = old.db, old.store, old.bo, old.cfg, old.restarts+1
 		nd.bo.node = nd
@@ -720,6 +731,7 @@ func (s *netSim) newNode(id int, state cstate.LatestBlockState, old *netNode) *n
 		nd.store = cstate.NewStore(nd.db)
 		nd.bo = &netBlockOps{node: nd, db: nd.db, blocks: map[uint64]*types.Block{}, parts: map[uint64]*types.PartSet{}, seen: map[uint64]*types.Commit{}}
 		nd.cfg = s.newCfg()
+		netWriteGenesisBlock(nd.db)
 		if s.genDoc != nil {
 			st, err := nd.store.LoadStateFromDBOrGenesisDoc(s.genDoc)
 			if err != nil {
@@ -766,13 +778,32 @@ func (s *netSim) newNode(id int, state cstate.LatestBlockState, old *netNode) *n
 	return nd
 }
 
+// netWriteGenesisBlock does what genesis.Genesis.Commit writes for the height-0 block (without
+// executing the staking set-up: the application is a stub here), so that cstate.Store.Load finds a head.
+func netWriteGenesisBlock(db kaidb.Database) {
+	head := &types.Header{Time: netGenesisTime, Height: 0, GasLimit: configs.GenesisGasLimit}
+	block := types.NewBlock(head, nil, &types.Commit{}, nil, trie.NewStackTrie(nil))
+	rawdb.WriteBlock(db, block, block.MakePartSet(types.BlockPartSizeBytes), &types.Commit{})
+	rawdb.WriteCanonicalHash(db, block.Hash(), block.Height())
+	rawdb.WriteHeadBlockHash(db, block.Hash())
+	rawdb.WriteAppHash(db, block.Height(), block.AppHash())
+}
+
 func (s *netSim) newCfg() *configs.ConsensusConfig {
 	cfg := configs.TestConsensusConfig()
 	if s.r.Chance(1, 3) {
 		cfg.CreateEmptyBlocksInterval = 35 * time.Millisecond
 	}
 	cfg.IsSkipTimeoutCommit = s.r.Chance(1, 4)
+	s.lastCfg = cfg
 	return cfg
+}
+
+func (s *netSim) nodes0(id int) *configs.ConsensusConfig {
+	if id < len(s.nodes) && s.nodes[id] != nil && s.nodes[id].cfg != nil {
+		return s.nodes[id].cfg
+	}
+	return s.lastCfg
 }
 
 func (s *netSim) correct() []*netNode {
@@ -861,7 +892,7 @@ func (s *netSim) drain(nd *netNode, max int) int {
 		case *ProposalMessage:
 			m = &netMsg{h: x.Proposal.Height, kind: 'P', prop: x.Proposal, from: nd.id}
 		case *BlockPartMessage:
-			psh := types.PartSetHeader{Total: uint32(x.Part.Proof.Total), Hash: common.BytesToHash(x.Part.Proof.RootHash)}
+			psh := types.PartSetHeader{Total: uint32(x.Part.Proof.Total), Hash: common.BytesToHash(x.Part.Proof.ComputeRootHash())}
 			m = &netMsg{h: x.Height, kind: 'B', part: x.Part, round: x.Round, psh: psh, from: nd.id}
 		}
 		if m == nil {
@@ -904,6 +935,11 @@ func (s *netSim) deliver(nd *netNode, m *netMsg, peer string) {
 	}
 	if m.id != 0 {
 		nd.seen[m.id] = true
+		// "refused before" is only remembered for a vote the node could have taken (its height, a round
+		// it tracks): a refusal for an unwanted round is transient (peers offer the vote again later)
+		if m.kind != 'V' || netVoteSetOf(nd.cs, m.vote) != nil {
+			nd.seenAt[m.id] = nd.majEpoch
+		}
 	}
 	s.guard(nd, "peer message", func() { nd.cs.handleMsg(msgInfo{Msg: msg, PeerID: p2p.ID(peer)}) })
 	s.settle(nd)
@@ -1107,10 +1143,8 @@ func (s *netSim) byzPropose(b int, h uint64, round uint32, now bool) {
 		var ps *types.PartSet
 		// sometimes re-propose a block already known at this height (e.g. a correct node's block)
 		if len(ht.blocks) > 0 && s.r.Chance(1, 4) {
-			for hsh, bb := range ht.blocks {
-				blk, ps = bb, ht.psets[hsh]
-				break
-			}
+			hsh := ht.blockL[s.r.Intn(len(ht.blockL))]
+			blk, ps = ht.blocks[hsh], ht.psets[hsh]
 		} else {
 			blk, ps = s.byzBlock(h, b, kind)
 		}
@@ -1320,6 +1354,80 @@ func (s *netSim) pruneFlights() {
 	s.flights = s.flights[:k]
 }
 
+func netVoteSetOf(cs *ConsensusState, v *types.Vote) *types.VoteSet {
+	if v.Height != cs.Height {
+		return nil
+	}
+	if v.Type == kproto.PrevoteType {
+		return cs.Votes.Prevotes(v.Round)
+	}
+	return cs.Votes.Precommits(v.Round)
+}
+
+// netHasVote: the node's vote set holds exactly this vote (same validator, same block id)
+func netHasVote(cs *ConsensusState, v *types.Vote) bool {
+	vs := netVoteSetOf(cs, v)
+	if vs == nil {
+		return false
+	}
+	ba := vs.BitArrayByBlockID(v.BlockID)
+	return ba != nil && ba.GetIndex(int(v.ValidatorIndex))
+}
+
+// setMaj23 is what the reactor does on a VoteSetMaj23Message from a peer (manager.go Receive):
+// the peer claims +2/3 for blockID; conflicting votes for that block id are then accepted.
+func (s *netSim) setMaj23(nd *netNode, peer int, round uint32, typ kproto.SignedMsgType, bid types.BlockID) {
+	k := fmt.Sprintf("%d/%d/%d/%d/%s", nd.cs.Height, peer, round, typ, netBidKey(bid))
+	if nd.majSet[k] {
+		return
+	}
+	var vs *types.VoteSet
+	if typ == kproto.PrevoteType {
+		vs = nd.cs.Votes.Prevotes(round)
+	} else {
+		vs = nd.cs.Votes.Precommits(round)
+	}
+	if vs == nil {
+		return // a round the node does not track yet (SetPeerMaj23 is a no-op there); asked again later
+	}
+	nd.majSet[k] = true
+	if err := nd.cs.Votes.SetPeerMaj23(round, typ, p2p.ID(fmt.Sprintf("n%d", peer)), bid); err == nil {
+		nd.majEpoch++
+		s.o.Count("maj23-claim")
+	}
+}
+
+// queryMaj23 mirrors queryMaj23Routine: every connected correct peer tells the node about the +2/3
+// majorities it has seen (its round, its proposal's POL round, the commit of a height it has left).
+func (s *netSim) queryMaj23(nd *netNode) {
+	h := nd.cs.Height
+	for _, o := range s.correct() {
+		if o.id == nd.id || !s.connected(o.id, nd.id) {
+			continue
+		}
+		if o.cs.Height == h {
+			rounds := []uint32{o.cs.Round}
+			if o.cs.Proposal != nil && o.cs.Proposal.POLRound > 0 {
+				rounds = append(rounds, o.cs.Proposal.POLRound)
+			}
+			for _, r := range rounds {
+				if vs := o.cs.Votes.Prevotes(r); vs != nil {
+					if bid, ok := vs.TwoThirdsMajority(); ok {
+						s.setMaj23(nd, o.id, r, kproto.PrevoteType, bid)
+					}
+				}
+				if vs := o.cs.Votes.Precommits(r); vs != nil {
+					if bid, ok := vs.TwoThirdsMajority(); ok {
+						s.setMaj23(nd, o.id, r, kproto.PrecommitType, bid)
+					}
+				}
+			}
+		} else if c := o.bo.seen[h]; c != nil {
+			s.setMaj23(nd, o.id, c.Round, kproto.PrecommitType, c.BlockID)
+		}
+	}
+}
+
 // catchup gives a node that is behind the commit (precommits of the seen commit) and the block parts
 // of its height from a correct node that has committed it (gossipVotesRoutine's LastCommit /
 // LoadBlockCommit branch and gossipDataForCatchup).
@@ -1343,11 +1451,16 @@ func (s *netSim) catchup(nd *netNode) bool {
 				continue
 			}
 			v := commit.GetVote(uint32(i))
-			if vs := nd.cs.Votes.Precommits(commit.Round); vs != nil && vs.GetByIndex(uint32(i)) != nil {
+			if netHasVote(nd.cs, v) {
 				continue
 			}
+			m := s.archiveMsg(&netMsg{h: h, kind: 'V', vote: v, from: src.id})
+			if at, ok := nd.seenAt[m.id]; ok && at >= nd.majEpoch && nd.cs.Votes.Precommits(commit.Round) != nil {
+				continue // refused before and nothing has changed since
+			}
 			hBefore := nd.cs.Height
-			s.deliver(nd, &netMsg{h: h, kind: 'V', vote: v, from: src.id}, fmt.Sprintf("c%d", src.id))
+			s.deliver(nd, m, fmt.Sprintf("c%d", src.id))
+			s.queryMaj23(nd)
 			did = true
 			if nd.dead != "" || nd.cs.Height != hBefore {
 				return true
@@ -1509,13 +1622,13 @@ func (s *netSim) adversarial(budget int) {
 
 // gossipTo: everything the correct part of the network knows and the node can use now.
 func (s *netSim) gossipTo(nd *netNode) bool {
-	did := false
-	s.drain(nd, 0)
+	did := s.drain(nd, 0) > 0
 	if nd.dead != "" {
 		return false
 	}
 	cs := nd.cs
 	h := cs.Height
+	s.queryMaj23(nd)
 	// behind by a height: commit and block from a peer
 	if s.catchup(nd) {
 		did = true
@@ -1548,8 +1661,11 @@ func (s *netSim) gossipTo(nd *netNode) bool {
 		}
 		switch m.kind {
 		case 'V':
-			if nd.seen[m.id] || cs.Votes.Prevotes(m.vote.Round) == nil {
+			if cs.Votes.Prevotes(m.vote.Round) == nil || netHasVote(cs, m.vote) {
 				continue
+			}
+			if at, ok := nd.seenAt[m.id]; ok && at >= nd.majEpoch {
+				continue // refused before (bad signature, or conflicting without a +2/3 claim) and nothing has changed
 			}
 		case 'P':
 			if nd.seen[m.id] || m.prop.Round != cs.Round || cs.Proposal != nil {
@@ -1564,6 +1680,9 @@ func (s *netSim) gossipTo(nd *netNode) bool {
 		peer := fmt.Sprintf("n%d", m.from)
 		if s.byz[m.from] {
 			peer = "relay"
+		}
+		if os.Getenv("NET_DEBUG") == "2" {
+			fmt.Printf("gossip step=%d to=%d kind=%c id=%d from=%d h=%d\n", s.step, nd.id, m.kind, m.id, m.from, m.h)
 		}
 		s.deliver(nd, m, peer)
 		did = true
@@ -1601,8 +1720,31 @@ func (s *netSim) dump() string {
 		if nd.ticker.pending != nil {
 			pend = fmt.Sprintf("%d/%d/%d", nd.ticker.pending.Height, nd.ticker.pending.Round, nd.ticker.pending.Step)
 		}
-		l = append(l, fmt.Sprintf("node%d:h=%d r=%d step=%d locked=%s@%d valid=%s@%d proposal=%s block=%s parts=%s timeout=%s dead=%q",
-			nd.id, cs.Height, cs.Round, cs.Step, bs(cs.LockedBlock), cs.LockedRound, bs(cs.ValidBlock), cs.ValidRound, prop, bs(cs.ProposalBlock), parts, pend, nd.dead))
+		pvs, pcs, prp := "-", "-", "-"
+		if v := cs.Votes.Prevotes(cs.Round); v != nil {
+			pvs = v.BitArray().String()
+		}
+		if v := cs.Votes.Precommits(cs.Round); v != nil {
+			pcs = v.BitArray().String()
+		}
+		if pp := cs.Validators.GetProposer(); pp != nil {
+			prp = fmt.Sprint(s.idOf[pp.Address])
+		}
+		l = append(l, fmt.Sprintf("node%d:h=%d r=%d step=%d prevotes=%s precommits=%s proposer=node%s restarts=%d locked=%s@%d valid=%s@%d proposal=%s block=%s parts=%s timeout=%s dead=%q",
+			nd.id, cs.Height, cs.Round, cs.Step, pvs, pcs, prp, nd.restarts, bs(cs.LockedBlock), cs.LockedRound, bs(cs.ValidBlock), cs.ValidRound, prop, bs(cs.ProposalBlock), parts, pend, nd.dead))
+		if os.Getenv("NET_DEBUG") != "" {
+			own, _ := cs.Validators.GetByAddress(nd.key.GetAddress())
+			l = append(l, fmt.Sprintf("  [node%d ownidx=%d valhash=%x lastcommit=%v]", nd.id, own, cs.Validators.Hash().Bytes()[:4], cs.LastCommit != nil))
+			if ht != nil {
+				for _, m := range ht.archive {
+					if m.kind == 'V' && m.vote.Round == cs.Round && m.from != nd.id && !netHasVote(cs, m.vote) {
+						at, ok := nd.seenAt[m.id]
+						err := m.vote.Verify(netChainID, s.keys[m.from].GetAddress())
+						l = append(l, fmt.Sprintf("  [missing vote from node%d idx=%d type=%d seenAt=%d,%v epoch=%d verify=%v]", m.from, m.vote.ValidatorIndex, m.vote.Type, at, ok, nd.majEpoch, err))
+					}
+				}
+			}
+		}
 	}
 	return strings.Join(l, "; ")
 }
@@ -1782,7 +1924,7 @@ func (s *netSim) checkHeights() {
 			continue
 		}
 		// agreement
-		for _, c := range ht.commits[1:] {
+		for _, c := range ht.commits {
 			if c.hash != ht.commits[0].hash {
 				s.fail("agreement", fmt.Sprintf("height %d: node %d committed block %d (round %d), node %d committed block %d (round %d)", h,
 					ht.commits[0].node, ht.commits[0].bid, ht.commits[0].round, c.node, c.bid, c.round))
@@ -1850,6 +1992,7 @@ func (s *netSim) blockSync() {
 	H := src.bo.height
 	db := memorydb.New()
 	store := cstate.NewStore(db)
+	netWriteGenesisBlock(db)
 	gen := s.genesis.Copy()
 	if s.genDoc != nil {
 		gen, _ = store.LoadStateFromDBOrGenesisDoc(s.genDoc)
@@ -1860,6 +2003,11 @@ func (s *netSim) blockSync() {
 	bo := &netBlockOps{node: dummy, db: db, blocks: map[uint64]*types.Block{}, parts: map[uint64]*types.PartSet{}, seen: map[uint64]*types.Commit{}}
 	dummy.bo = bo
 	exec := cstate.NewBlockExecutor(store, log.New(), netEv{}, bo)
+	eb := types.NewEventBus()
+	eb.SetLogger(log.New())
+	eb.Start()
+	defer eb.Stop()
+	exec.SetEventBus(eb)
 	proc := blockchain.VerifNewProcessor(bo, exec, gen)
 	queued := map[uint64]bool{}
 	offer := func(peer string, b *types.Block) {
@@ -2178,7 +2326,9 @@ func netMain(t *testing.T, mode string) {
 		if *netOnly >= 0 && *netOnly != i {
 			continue
 		}
-		netRun(o, root.Fork(uint64(i)), i, mode)
+		if p := netGuarded(func() { netRun(o, root.Fork(uint64(i)), i, mode) }); p != "" {
+			o.Fail(0, "harness-panic", strings.Split(p, "\n")[0])
+		}
 	}
 	o.Close()
 }
